@@ -85,12 +85,18 @@ def _pix(expr: str):
     return N.aff_key(N.affine(X.expr_of(expr)))
 
 
-def _abstract_mazes():
-    "abstract mazes: grid shapes incl. oblong and degenerate ones; for each, no edge, every edge, and each single edge alone (the writer treats edges independently)"
+def _abstract_mazes(thorough: bool = False):
+    """abstract mazes: grid shapes incl. oblong and degenerate ones; for each, no edge, every edge, and each single edge alone (the
+    writer treats edges independently); thorough tier: more shapes (up to 4x4) and every pair of edges"""
+    import itertools as _it
+
     out = []
-    for r, c in ((2, 3), (3, 2), (1, 1), (1, 3), (2, 2)):
+    shapes = ((2, 3), (3, 2), (1, 1), (1, 3), (2, 2)) + (((3, 3), (4, 2), (2, 4), (4, 4), (3, 1)) if thorough else ())
+    for r, c in shapes:
         cells = [(d, i, j) for d in (0, 1) for i in range(r) for j in range(c)]
         pats = [set(), set(cells)] + [{e} for e in cells]
+        if thorough and len(cells) <= 24:
+            pats += [set(p) for p in _it.combinations(cells, 2)]
         for on in pats:
             out.append((r, c, [[[(d, i, j) in on for j in range(c)] for i in range(r)] for d in (0, 1)]))
     return out
@@ -134,7 +140,7 @@ def rule_X2(ctx: Ctx) -> None:
         return NotImplemented
     w = ctx.index.func(f"{LM}.LatticeMaze._as_pixels_bw")
     r_ = ctx.index.func(f"{LM}.LatticeMaze._from_pixel_grid_bw")
-    mazes = _abstract_mazes()
+    mazes = _abstract_mazes(ctx.tier == "thorough")
     bad_w, bad_r, unk = [], [], []
     for r, c, cl in mazes:
         want = _expected_pixels(r, c, cl)
